@@ -14,7 +14,7 @@ RULE = ("Cases: a recording layout (cycle lengths in {1,2,3}, optional unlabelle
         "for every existing index; backward maps equal the exact index sets; forward maps give none "
         "(None or -1) exactly for unlabelled samples / unselected cycles; s in map_X_to_samples("
         "map_sample_to_X(s)); the six project_* put each value on exactly the items mapping to it, NaN "
-        "elsewhere. Non-trivial: >=2 chains or >=1 gap.")
+        "elsewhere, also when one cycle-vector object is used for several selections in turn. Non-trivial: >=2 chains or >=1 gap.")
 ASSUMPTIONS = ["label vectors are 1-D integer arrays built by the reference model (contiguous cycles, "
                "subset = rank among selected cycles, chain = maximal run of consecutive selected cycles)"]
 
@@ -192,6 +192,32 @@ def oracle(case, rec):
             e[s] = hv[chain[sub[cyc[s]]]]
     expect_proj('project_chain_to_samples',
                 call('project_chain_to_samples', 'proj', hv.copy(), chain.copy(), sub.copy(), cyc.copy()), e)
+
+    # the projections again through ONE cycle-vector object with several selections in turn (nothing may be remembered
+    # from an earlier call): original selection, a rotated one, the original again
+    shared = cyc.copy()
+    sel2 = list(sel[1:]) + list(sel[:1])
+    for which, s_ in (('first', sel), ('other-selection', sel2), ('first-again', sel)):
+        _, sub_, chain_ = build(lengths, gaps, s_)
+        S_ = len(chain_)
+        H_ = int(chain_.max()) + 1 if S_ else 0
+        sv_ = 200.0 + np.arange(S_)
+        hv_ = 300.0 + np.arange(H_)
+        e1 = np.full(N, np.nan)
+        e2 = np.full(N, np.nan)
+        for s in range(N):
+            if shared[s] >= 0 and sub_[shared[s]] >= 0:
+                e1[s] = sv_[sub_[shared[s]]]
+                e2[s] = hv_[chain_[sub_[shared[s]]]]
+        got1 = call('project_subset_to_samples', 'sequence', sv_.copy(), sub_.copy(), shared)
+        got2 = call('project_chain_to_samples', 'sequence', hv_.copy(), chain_.copy(), sub_.copy(), shared)
+        for nm, g, e in (('project_subset_to_samples', got1, e1), ('project_chain_to_samples', got2, e2)):
+            g = np.asarray(g, dtype=float)
+            if g.shape != e.shape or not np.array_equal(np.isnan(g), np.isnan(e)) or not np.array_equal(g[~np.isnan(e)], e[~np.isnan(e)]):
+                raise Violation('C16/%s/sequence-on-one-cycle-vector/%s' % (nm, which),
+                                'selection %r after %r: got %r expected %r' % (list(s_), list(sel), g.tolist()[:30], e.tolist()[:30]))
+    if not np.array_equal(shared, cyc):
+        raise Violation('C16/cycle-vector-modified', '')
 
     ngaps = sum(1 for g in gaps if g > 0)
     rec.cls('chains=%s' % (H if H < 4 else '4+'))
